@@ -1,6 +1,7 @@
 package main
 
 import (
+	"encoding/binary"
 	"encoding/hex"
 	"encoding/json"
 	"fmt"
@@ -247,8 +248,9 @@ func (h *Harness) judge2(w Workload, wr *WlRun, ht Hit, mode string, c *ChildRes
 		return best != "" && bh > c.S1.Height && !h.ref.isAncestorOrEqual(x, best)
 	}
 	fail := func(key, what string) bool {
-		if mode == "library" && strings.Contains(c.Open, "unknown path to block") {
-			// FindPathTo's own message: the snapshot's block is not an ancestor of the farthest block on disk
+		if mode == "library" && (strings.Contains(c.Open, "unknown path to block") || strings.Contains(c.Open, "end block is not higher then current")) {
+			// FindPathTo's own message: the snapshot's block is not an ancestor of the farthest block on disk; when the farthest
+			// block is an equal-height leaf of another branch (Go map order decides) ParseTillBlock refuses before FindPathTo does
 			r.PropFail(keyLib, "library-mode NewChainExt (DoNotRescan=false) calls ParseTillBlock(farthest) and panics in FindPathTo when the snapshot's block is not an ancestor of the farthest block on disk: "+where+": "+what, rep)
 			r.Hit("known:" + keyLib)
 			return false
@@ -256,7 +258,10 @@ func (h *Harness) judge2(w Workload, wr *WlRun, ht Hit, mode string, c *ChildRes
 		// F8 needs BOTH: the loaded snapshot is off the branch recovery moves to, AND an undo file of the snapshot's own chain
 		// has been rewritten by another block (seen in the captured directory right after NewChainExt). A missing undo file,
 		// or a failure while every undo file still belongs to its block, is a different defect.
-		if offBranch() && (mode == "library" || len(c.UndoForeign) > 0) {
+		// … or the blocks still to be fed lead away from the re-opened block's branch (the uninterrupted run's final tip is not a
+		// descendant of it) while an undo file under the re-opened chain already names another block
+		offFinal := c.S1 != nil && wr.Final != nil && !h.ref.isAncestorOrEqual(c.S1.Tip, wr.Final.Tip) && len(c.UndoForeign) > 0
+		if (offBranch() && (mode == "library" || len(c.UndoForeign) > 0)) || offFinal {
 			if mode == "library" && strings.Contains(c.Open, "unknown path to block") {
 				r.PropFail(keyLib, "library-mode NewChainExt (DoNotRescan=false) panics in FindPathTo when the snapshot's block is not an ancestor of the farthest block on disk: "+where+": "+what, rep)
 				r.Hit("known:" + keyLib)
@@ -324,6 +329,83 @@ type s2case struct {
 	all   bool   // the second crash is taken at EVERY point the continuing process reaches
 	dir   string // private copy of the first capture
 	res   *ChildRes
+	idx0  []byte // blockchain.new of the first capture (after the optional cut), read before the restart touches it
+	dat0  int64  // length of the current data file at that moment
+	datFn string
+}
+
+// posTie compares the FILE POSITIONS of the real block store with the positional Lean model (Model/PersistPos.lean, oracle op
+// `pos`): the directory the first restart starts from holds the index records idx0 and a data file of dat0 bytes (anything
+// beyond the indexed data is an orphaned tail); the continuing process stores the blocks whose records follow; at every
+// second-crash capture taken right after an index write (or at the end) the fpos of every record and the length of the data
+// file must be what the model computes for "open (LoadBlockIndex + Seek), writeOne …".
+func (h *Harness) posTie(w Workload, c *s2case, sc SecondCap) {
+	r := h.r
+	if sc.Point != "blockdb.write:idx-written" && sc.Point != "end" {
+		return
+	}
+	capDir := strings.TrimRight(c.dir, "/") + ".s2/" + sc.Name + "/"
+	idx, err := os.ReadFile(capDir + "blockchain.new")
+	if err != nil || len(c.idx0)%136 != 0 || len(idx)%136 != 0 || len(idx) < len(c.idx0) {
+		r.Hit("pos-tie:skipped")
+		return
+	}
+	st, err := os.Stat(capDir + c.datFn)
+	if err != nil {
+		r.Hit("pos-tie:skipped")
+		return
+	}
+	ids := map[string]int{}
+	var toks, real []string
+	n0 := len(c.idx0) / 136
+	for i := 0; i < len(idx)/136; i++ {
+		b := idx[i*136 : i*136+136]
+		if b[0]&0x01 == 0 && false {
+			continue
+		}
+		key := hex.EncodeToString(b[56:136])
+		if _, ok := ids[key]; !ok {
+			ids[key] = len(ids) + 1
+		}
+		fpos := binary.LittleEndian.Uint64(b[40:48])
+		blen := binary.LittleEndian.Uint32(b[48:52])
+		if binary.LittleEndian.Uint32(b[32:36]) != 0 && false {
+			continue
+		}
+		if i < n0 {
+			if string(b[1:]) != string(c.idx0[i*136+1:i*136+136]) {
+				r.Hit("pos-tie:skipped")
+				return
+			}
+			toks = append(toks, fmt.Sprintf("r:%d:%d:%d", ids[key], fpos, blen))
+		} else {
+			toks = append(toks, fmt.Sprintf("w:%d:%d", ids[key], blen))
+		}
+		real = append(real, fmt.Sprintf("%d:%d:%d", ids[key], fpos, blen))
+	}
+	want := fmt.Sprintf("ok %d 1", st.Size())
+	if len(real) > 0 {
+		want += " " + strings.Join(real, " ")
+	}
+	got := h.o.MustAsk(fmt.Sprintf("pos 0 %d %s", c.dat0, strings.Join(toks, " ")))
+	r.Eval("positions/"+w.Shape, fmt.Sprintf("%s|%s|%d|%s", w.Name, c.hit.Name, c.hit.Idx, sc.Name))
+	if got == want {
+		r.TieOK()
+		if c.dat0 > 0 && n0 > 0 {
+			last := c.idx0[(n0-1)*136 : n0*136]
+			if int64(binary.LittleEndian.Uint64(last[40:48]))+int64(binary.LittleEndian.Uint32(last[48:52])) < c.dat0 {
+				r.Hit("pos-tie:orphaned-data-tail-overwritten")
+			}
+		}
+		return
+	}
+	pre := ""
+	if c.trunc {
+		pre = "t"
+	}
+	r.TieFail("model-positions:"+w.Shape, fmt.Sprintf("workload %s, first crash at %s#%d (index cut: %v), second capture %s: the block store's file positions differ from the positional model: real (data file length, every record reads back, id:fpos:blen…) = %q, model = %q",
+		w.Name, c.hit.Name, c.hit.Idx, c.trunc, sc.Name, want, got),
+		map[string]interface{}{"case": Case{Workload: w.Name, Hit: c.hit.N, Mode: "client", Second: pre + sc.Name}, "query": toks, "dat0": c.dat0})
 }
 
 func (h *Harness) stage2Select(w Workload, wr *WlRun, only int, onlySecond string) (cs []*s2case) {
@@ -360,6 +442,7 @@ func (h *Harness) stage2Select(w Workload, wr *WlRun, only int, onlySecond strin
 				c.all = true
 			}
 			if copyTree(fmt.Sprintf("%s/%04d/", wr.Snaps, ht.N), c.dir) == nil {
+				c.readStart()
 				cs = append(cs, c)
 			}
 		}
@@ -368,12 +451,24 @@ func (h *Harness) stage2Select(w Workload, wr *WlRun, only int, onlySecond strin
 			if copyTree(fmt.Sprintf("%s/%04d/", wr.Snaps, ht.N), c.dir) == nil {
 				if st, err := os.Stat(c.dir + "blockchain.new"); err == nil && st.Size() >= 136 {
 					os.Truncate(c.dir+"blockchain.new", st.Size()-st.Size()%136-136)
+					c.readStart()
 					cs = append(cs, c)
 				}
 			}
 		}
 	}
 	return
+}
+
+func (c *s2case) readStart() {
+	c.idx0, _ = os.ReadFile(c.dir + "blockchain.new")
+	c.datFn = "blockchain.dat"
+	if _, e := os.Stat(c.dir + c.datFn); e != nil {
+		c.datFn = "bl00000000.dat"
+	}
+	if st, e := os.Stat(c.dir + c.datFn); e == nil {
+		c.dat0 = st.Size()
+	}
 }
 
 func (h *Harness) stage2Run(w Workload, wr *WlRun, blocksFile string, cs []*s2case, onlySecond string) {
@@ -417,6 +512,9 @@ func (h *Harness) stage2Run(w Workload, wr *WlRun, blocksFile string, cs []*s2ca
 		}
 		if len(c.res.Second) == 0 {
 			r.Hit("second-crash:first-restart-did-not-continue")
+		}
+		for _, sc := range c.res.Second {
+			h.posTie(w, c, sc)
 		}
 	}
 	for _, j := range jobs {
@@ -724,7 +822,7 @@ func (h *Harness) compareModel(w Workload, wr *WlRun, m *Model, ht Hit, c *Child
 	r := h.r
 	k := m.baseLabels + ht.N
 	rep := h.o.MustAsk(fmt.Sprintf("crash %d", k))
-	// reply: ok <tip1> <tip2> <coins2> <tip3> <coins3> <ambiguous 0|1>   |  panic <stage> <what>
+	// reply: ok <tip1> <tip2> <coins2> <tip3> <coins3> <ambiguous 0|1> <foreign 0|1>   |  panic <stage> <what>
 	f := strings.Fields(rep)
 	if !propOK && strings.HasPrefix(rep, "panic unsupported") {
 		// inside the known-finding region the corrupted UTXO set makes a VALID block fail; DeleteBranch is not modelled
@@ -732,9 +830,23 @@ func (h *Harness) compareModel(w Workload, wr *WlRun, m *Model, ht Hit, c *Child
 		return
 	}
 	real := fmt.Sprintf("ok %d %d %s %d %s", m.blockID[c.S1.Tip], m.blockID[c.S2.Tip], h.coinsToIDs(m, c.S2), m.blockID[c.S3.Tip], h.coinsToIDs(m, c.S3))
-	if len(f) == 7 && f[0] == "ok" {
+	if len(f) == 8 && f[0] == "ok" {
 		mod := strings.Join(f[:6], " ")
 		if mod == real {
+			// the ghost flag of the model (an undo file of another block was read) is the exclusion hypothesis of the Lean theorem
+			// recovered_set_is_replay: wherever the real code's recovered state is wrong, the model must have raised it
+			if !propOK && f[7] != "1" {
+				r.TieFail("model-foreign-flag:"+w.Shape, fmt.Sprintf("workload %s crash point %d (%s#%d): the property fails on the real code and the model predicts the same state, but the model did not read an undo file of another block there (ghost flag 0): the exclusion hypothesis of recovered_set_is_replay does not cover this failure", w.Name, ht.N, ht.Name, ht.Idx),
+					map[string]interface{}{"case": Case{Workload: w.Name, Hit: ht.N, Mode: "client"}, "tokens": wr.ModelTok, "k": k})
+				return
+			}
+			if f[7] == "1" {
+				if propOK {
+					r.Hit("model-foreign-undo-read-but-harmless")
+				} else {
+					r.Hit("model-foreign-undo-read-and-property-fails")
+				}
+			}
 			r.TieOK()
 			return
 		}
